@@ -46,6 +46,9 @@ enum Act {
     Refund { token: usize, amt: Amt, by: usize, receiver: u8 },
     /// a refund of 1 by the collector for the empty message id
     RefundEmptyId { token: usize },
+    /// everything held is paid out on the strength of the collector's authorisation for a payout
+    /// of 1 (same entry point, same receiver, another amount): refused
+    PayoutOnOtherAmountsAuth { token: usize, collect: bool },
     /// the current owner hands the ownership to the stranger (the collector role must not follow)
     TransferOwnershipToStranger,
     Advance(u32),
@@ -159,6 +162,8 @@ impl Scenario for C14 {
                 v.push(Act::Refund { token, amt, by: 3, receiver: 0 });
             }
             v.push(Act::RefundEmptyId { token });
+            v.push(Act::PayoutOnOtherAmountsAuth { token, collect: true });
+            v.push(Act::PayoutOnOtherAmountsAuth { token, collect: false });
             // paying out to the service itself must leave every balance where it was
             for amt in [Amt::One, Amt::All] {
                 v.push(Act::Collect { token, amt, by: 3, receiver: 3 });
@@ -245,6 +250,25 @@ impl Scenario for C14 {
                     );
                     out.expect(r.is_ok(), "payment.event", || truncate(&r.unwrap_err(), 500));
                 } else {
+                    out.expect(h0 == w.state_hash(), "rejected-but-changed-state", || format!("{:?}", a));
+                }
+            }
+            Act::PayoutOnOtherAmountsAuth { token, collect } => {
+                out.kind = "payout-unauthorised";
+                let held = m.bal[*token][3];
+                let recv = ctx.who[2].clone();
+                let mk = |x: i128| -> Vec<soroban_sdk::Val> {
+                    let tok = token_scval(&w.sc_addr(&ctx.tokens[*token]), x);
+                    if *collect { vec![recv.to_val(), to_val(env, &tok)] } else { vec![to_val(env, &sstr("msg-7")), recv.to_val(), to_val(env, &tok)] }
+                };
+                let f = if *collect { "collect_fees" } else { "refund" };
+                let signers = [ctx.who[3].clone()];
+                // the amount asked for is everything held (at least 2, so that it differs from the 1 signed for)
+                let x = held.max(2);
+                let call = w.call(&ctx.gas, f, &mk(x), Auth::ForOtherCall(&signers, &ctx.gas, f, &mk(1)));
+                out.accepted = call.ok;
+                out.expect(!call.ok, "payout.outcome", || format!("{:?}: {} of {} accepted on the collector's authorisation for 1", a, f, x));
+                if !call.ok {
                     out.expect(h0 == w.state_hash(), "rejected-but-changed-state", || format!("{:?}", a));
                 }
             }
@@ -343,7 +367,7 @@ fn main() {
         let thorough = tier == "thorough";
         let mut o = Opts::new(tier, if thorough { 10 } else { 4 });
         o.min_depth = 3;
-        o.rule = "three configurations (owner and collector distinct / the same address at deployment / the service already holding i128::MAX - 5 of two tokens); all sequences over ownership transfer to the stranger, pay_gas / add_gas (2 tokens: stellar asset contract and native interchain token; spenders U1, U2; amounts -1, 0, 1, balance, balance+1; authorised by the spender or by someone else; also naming the gas service itself as payer) and collect_fees / refund (also for the empty message id; amounts -1, 0, 1, held, held+1; by collector, owner, stranger (who may have become the owner); to a receiver, to the collector itself, to the gas service itself, and to an address that a third token refuses); after every new state all balances of both tokens and the equation held == paid + added - collected - refunded are compared with the model".into();
+        o.rule = "three configurations (owner and collector distinct / the same address at deployment / the service already holding i128::MAX - 5 of two tokens); all sequences over ownership transfer to the stranger, pay_gas / add_gas (2 tokens: stellar asset contract and native interchain token; spenders U1, U2; amounts -1, 0, 1, balance, balance+1; authorised by the spender or by someone else; also naming the gas service itself as payer) and collect_fees / refund (also for the empty message id; amounts -1, 0, 1, held, held+1; by collector, owner, stranger (who may have become the owner), and on the collector's authorisation for another amount; to a receiver, to the collector itself, to the gas service itself, and to an address that a third token refuses); after every new state all balances of both tokens and the equation held == paid + added - collected - refunded are compared with the model".into();
         (C14 { thorough }, o)
     });
 }
